@@ -187,8 +187,10 @@ def run(rep, tier, rng):
             rep.inconcl(f"generator control does not compile: {desc(s)}: {[d['message'] for d in k.diags][:2]}")
             continue
         if c.status == "compile_fail":
-            msg = next((d["message"] for d in c.diags if d["level"] == "error"), "")
-            code = next((str(d["code"]) for d in c.diags if d["level"] == "error"), "")
+            # the control (same user-written pieces without derive_ex) compiled, so the failure is the macro's
+            d0 = next((d for d in c.diags if d["level"] == "error" and d["in_derive_ex"]), None) or \
+                next((d for d in c.diags if d["level"] == "error"), {"code": None, "message": "?"})
+            msg, code = d0["message"] or "", str(d0["code"])
             sigs.setdefault(f"C09|compile_fail|{code}|{msg[:50]}|{s['shape']}|self={'&A' if s['lref'] else 'A'}", []).append((c, f"does not compile ({msg[:200]}): {desc(s)}"))
             continue
         rep.count("impl_items_run")
